@@ -24,6 +24,13 @@ Proof.
   specialize (H x I). destruct (classify_eval (show_exn x)); try discriminate. eauto.
 Qed.
 
+(* running out of Python stack (the recursive-descent parser, the tree evaluator and the display all recurse on the
+   input's nesting) is diagnosed at every stage that recurses; the lexer is a loop *)
+Theorem stack_exhaustion_diagnosed :
+  classify_stage 1 "RecursionError" = Diagnosed "1" /\ classify_eval "RecursionError" = Diagnosed "1"
+  /\ classify_display "RecursionError" = Diagnosed "1".
+Proof. repeat split; vm_compute; reflexivity. Qed.
+
 (* ---------- which exceptions the modelled evaluators can raise ---------- *)
 Lemma binop_raises o a b x : binop_eval o a b = Raise x ->
   x = ZeroDivisionError \/ x = KaRuntimeError \/ x = Unmodelled.
